@@ -502,7 +502,7 @@ def jobs(tier: str, seed: int) -> list[dict]:
     from engine import smt_tables as T
     out = []
     names = list(T.RULES)
-    B = 280 if tier == 'quick' else 1800
+    B = 450 if tier == 'quick' else 1800
     for lk in names:
         rules = T.RULES[lk]
         for kind in ('valid', 'label', 'ranges'):
